@@ -57,6 +57,7 @@ package resource
 //@ pure func excluded(rc, id, m) = rc.Include != nil && !rc.Include(id, m)
 //@ type Collection
 //@   guarded_by mu: byId
+//@   lockinv mu: recv.byId != nil && (forall id string :: has(recv.byId, id) ==> recv.byId[id] != nil && !isnil(recv.byId[id].body))
 //@   guarded_by rngMu: config.rng
 //@
 //@ // helpers that are only ever called with the collection's lock held (every call site is checked against this)
@@ -349,11 +350,37 @@ package resource
 //@     invariant 0 <= k && k <= len(tmp) && len(result) == k && fresh(result)
 //@     invariant forall j int :: 0 <= j && j < k ==> projected(result[j], tmp[j].body, filter)
 //@
+//@ // ---- optimistic concurrency (C02): GetAndUpdate against ANY get/change/save, i.e. against any interleaving of other
+//@ // writers between its two critical sections: get returns whatever the store holds at that moment (an impure callback
+//@ // whose results are unconstrained), so the second read may differ from the first ----
+//@ property C02
+//@ callback GetAndUpdate.get: modifies nothing
+//@ callback GetAndUpdate.change: modifies msgs
+//@ callback GetAndUpdate.save: modifies nothing
+//@ func GetAndUpdate(mu, get, change, save) (oldValue, newValue, err)
+//@   inline     // callers (Value.set, Collection.Update) see the body, with their own closures
+//@   requires mu != nil && get != nil && change != nil && save != nil && !held(mu)
+//@   letold n0 := cbcalls()
+//@   // the commit is ONE exclusive critical section: re-read under the write lock, compare with the value the change was
+//@   // computed from, save, without releasing the lock in between
+//@   ensures [commit] err == nil ==> cbcalls() == n0 + 4 && cbfn(n0 + 3) == save && cbfn(n0 + 2) == get &&
+//@   |   cbheldW(n0 + 2, mu) && cbheldW(n0 + 3, mu) && cbgen(n0 + 2, mu) == cbgen(n0 + 3, mu)
+//@   ensures [validated] err == nil ==> equalmsg(cbresIface(n0 + 2, 0), oldValue)
+//@   ensures [saved-value] err == nil ==> cbargIface(n0 + 3, 0) == newValue
+//@   // the new value was computed from the value read first, outside any lock (documented: no lock during change)
+//@   ensures [computed-from-seen] cbcalls() >= n0 + 2 ==> cbfn(n0) == get && cbheld(n0, mu) && cbfn(n0 + 1) == change &&
+//@   |   cbargIface(n0 + 1, 0) == cbresIface(n0, 0) && !cbheld(n0 + 1, mu)
+//@   ensures [seen-is-old] err == nil ==> oldValue == cbresIface(n0, 0)
+//@   // a call that reports an error has saved nothing
+//@   ensures [no-commit-on-failure] err != nil ==> (forall k int :: n0 <= k && k < cbcalls() ==> cbfn(k) != save)
+//@   ensures [unlocked] !held(mu)
+//@
 //@ // ---- Collection as an id -> message map: writes ----
 //@ property C01 C02 C05 C07
 //@ pure func sameEntries(c) = c.byId == old(c.byId) && (forall k string :: has(c.byId, k) == old(has(c.byId, k)) && c.byId[k] == old(c.byId[k]))
 //@
 //@ func (*Collection).Update(id0, msg, opts) (res, err)
+//@   mode BOTH
 //@   requires wfColl(recv) && !isnil(msg) && writeOptsOK(opts)
 //@   requires forall k string :: has(recv.byId, k) ==> sametype(msg, recv.byId[k].body)     // a collection holds one message type
 //@   track Send
@@ -366,6 +393,10 @@ package resource
 //@   ensures [stored] err == nil ==> has(recv.byId, key) && recv.byId[key] != nil && recv.byId[key].body == res && !isnil(res)
 //@   ensures [others-kept] err == nil ==> (forall k string :: k != key ==> has(recv.byId, k) == old(has(recv.byId, k)) && recv.byId[k] == old(recv.byId[k]))
 //@   ensures [fresh-store] err == nil ==> fresh(res) && ref(res) != ref(msg)
+//@   // C02: a commit installs a NEW item and never edits an existing one: Delete's re-check under the lock compares item
+//@   // pointers, so a version it did not see must not hide behind the pointer it saw
+//@   ensures [new-item] err == nil ==> fresh(recv.byId[key])
+//@   ensures [items-immutable] forall p *item :: allocated(p) ==> p.body == old(p.body) && p.changeTime == old(p.changeTime)
 //@   // exactly one event, describing the transition
 //@   ensures [one-event] err == nil ==> calls(Send) == old(calls(Send)) + 1
 //@   ensures [event] err == nil ==> istype(lastarg(Send, 2), *CollectionChange) && ev.Id == key &&
@@ -376,10 +407,59 @@ package resource
 //@   ensures [not-found] !old(has(recv.byId, key)) && !writeRequest.createIfAbsent ==> err != nil
 //@   ensures [already-exists] old(has(recv.byId, key)) && writeRequest.expectAbsent ==> err != nil
 //@   ensures [wf] wfColl(recv)
+//@   // C02 (interference mode: the map is arbitrary again at every lock acquisition): the value a commit overwrites is
+//@   // (proto.Equal to) the value the change was computed from, an id that was absent is still absent, and the commit
+//@   // happens with the write lock held
+//@   onmapstore Collection.byId [INT] [commit-validated]: heldW(c.mu) && key == id && (has(c.byId, key) ==> equalmsg(c.byId[key].body, oldValue)) &&
+//@   |   (!has(c.byId, key) ==> !isnil(created))
+//@   replay [commit-validated] CollectionConcurrentAdd()
+//@   ensures [INT] [unlocked@C02] !held(recv.mu)
 //@   // a generated id is reported through the id callback and must find the entry again through Get/Update/Delete,
 //@   // which all apply the id interceptor to the id they are given
 //@   ensures [generated-usable] err == nil && keyOf(recv, id0) == "" && writeRequest.genEmptyID ==> key == keyOf(recv, lastcall(genID, 0))
 //@   replay [generated-usable] CollectionGeneratedIdUsable()
+//@
+//@ // Add = Update with expect-absent and create-if-absent in front of the caller's options
+//@ func (*Collection).Add(id0, body, opts) (res, err)
+//@   requires wfColl(recv) && !isnil(body) && writeOptsOK(opts)
+//@   requires forall k string :: has(recv.byId, k) ==> sametype(body, recv.byId[k].body)
+//@   track Send
+//@   ensures [fail-unchanged] err != nil ==> sameEntries(recv) && calls(Send) == old(calls(Send)) && isnil(res)
+//@   ensures [stored] err == nil ==> !isnil(res) && fresh(res) && calls(Send) == old(calls(Send)) + 1
+//@   ensures [wf] wfColl(recv)
+//@
+//@ func (*Collection).Delete(id0, opts) (res, err)
+//@   mode BOTH
+//@   requires wfColl(recv) && writeOptsOK(opts)
+//@   track Send
+//@   let key := keyOf(recv, id0)
+//@   let ev := cast(lastarg(Send, 2), *CollectionChange)
+//@   ensures [fail-unchanged] err != nil ==> sameEntries(recv) && calls(Send) == old(calls(Send))
+//@   ensures [absent-unchanged] !old(has(recv.byId, key)) ==> sameEntries(recv) && calls(Send) == old(calls(Send)) && isnil(res)
+//@   ensures [absent-error] !old(has(recv.byId, key)) && !args.allowMissing ==> err != nil
+//@   ensures [absent-allowed] !old(has(recv.byId, key)) && args.allowMissing ==> err == nil
+//@   ensures [removed] err == nil && old(has(recv.byId, key)) ==> !has(recv.byId, key) && res == old(recv.byId[key].body) &&
+//@   |   (forall k string :: k != key ==> has(recv.byId, k) == old(has(recv.byId, k)) && recv.byId[k] == old(recv.byId[k]))
+//@   ensures [one-event] err == nil && old(has(recv.byId, key)) ==> calls(Send) == old(calls(Send)) + 1 && istype(lastarg(Send, 2), *CollectionChange) &&
+//@   |   ev.Id == key && ev.ChangeType == types.ChangeType_REMOVE && ev.OldValue == res && isnil(ev.NewValue)
+//@   ensures [check-honoured] old(has(recv.byId, key)) && args.expectedCheck != nil && args.expectedCheck(old(recv.byId[key].body)) != nil ==> err != nil
+//@   ensures [value-honoured] old(has(recv.byId, key)) && !isnil(args.expectedValue) && !equalmsg(old(recv.byId[key].body), args.expectedValue) ==> err != nil
+//@   ensures [wf] wfColl(recv)
+//@   // C02 (interference mode: at every lock acquisition the map is whatever other writers made of it): the entry that is
+//@   // removed is the very item the preconditions were evaluated on, and it is removed in the critical section that saw it
+//@   ondelete Collection.byId [INT] [checked-version]: heldW(recv.mu) && has(recv.byId, key) && recv.byId[key] == oldVal && key == id
+//@   ensures [INT] [checked@C02] err == nil && !isnil(res) && args.expectedCheck != nil ==> args.expectedCheck(res) == nil
+//@   ensures [INT] [value-checked@C02] err == nil && !isnil(res) && !isnil(args.expectedValue) ==> equalmsg(res, args.expectedValue)
+//@   ensures [INT] [removed-seen@C02] err == nil && !isnil(res) ==> res == oldVal.body && !has(recv.byId, id)
+//@   ensures [INT] [unlocked@C02] !held(recv.mu)
+//@   loop 0:
+//@     invariant [SEQ] attempt == 0 && sameEntries(recv) && calls(Send) == old(calls(Send))
+//@     invariant wfColl(recv) && !held(recv.mu) && 0 <= attempt && attempt <= 5
+//@     invariant recv.config == old(recv.config) && recv.config.idInterceptor == old(recv.config.idInterceptor)
+//@     invariant id == keyOf(recv, id0)
+//@     invariant [SEQ] `exists` == has(recv.byId, id) && (`exists` ==> oldVal == recv.byId[id])
+//@     invariant [INT] `exists` ==> oldVal != nil && !isnil(oldVal.body)
+//@     decreases 5 - attempt
 //@
 //@ property C01 C04 C05 C06 C07
 //@ // ---- the goroutine that forwards a Value's events to one subscriber (C04, C06, C16 suppression step, C10 close) ----
